@@ -161,6 +161,39 @@ def act_create_store(data="data"):
     return run
 
 
+def act_with_fault(action, k):
+    """The action with one transient I/O failure (OSError EMFILE) injected before its k-th file-system operation."""
+    def run(root):
+        from vp import fsshim
+
+        fsshim.set_fault(k)
+        return action(root)
+
+    run.__name__ = "%s+transient-failure-before-op-%d" % (action.__name__, k)
+    return run
+
+
+def act_old_format_metadata(data="data"):
+    """Rewrites the metadata of every blob in the format of early releases ({"protocol": ...} only, no timestamp)."""
+    def run(root):
+        import json
+
+        i, _ = dirs(root, data)
+        n = 0
+        for fn in sorted(os.listdir(os.path.join(i, "blobs"))):
+            if fn.endswith(".meta"):
+                mp = os.path.join(i, "blobs", fn)
+                with open(mp) as f:
+                    meta = json.load(f)
+                with open(mp, "w") as f:
+                    json.dump({"protocol": meta["protocol"]}, f)
+                n += 1
+        return "old-format-metadata:%d" % n
+
+    run.__name__ = "old-format-metadata"
+    return run
+
+
 def act_default_store_keep(path, fn_name):
     def run(root):
         # the lazily created default store lives under tempfile.gettempdir(): redirect it into the scenario root
